@@ -194,7 +194,7 @@ def case_reader(ctx, kind, sym_gain, sort, cbin, tier, band="ap"):
     nsel_list = list(range(-ns, ns)) + (_selectors(b, ns) if not cbin else [slice(None), slice(0, 2), slice(1, None), slice(0, ns, 2)])
     csel_list = list(range(-(n + 1), n + 1)) + _selectors(b, n + 1)
     fancy_c = [[0], [n, 0], [1, 1, 2], [-1, 0], [], np.array([2, 0]), np.array([True, False, True, False][: n + 1] + [False] * max(0, n - 3))]
-    fancy_n = [[0], [2, 0], [1, 1], [-1], [], np.array([1, 2])]
+    fancy_n = [[0], [2, 0], [1, 1], [-1], [], np.array([1, 2]), [-2, -1], np.array([-3, -2, -1]), [0, 1, 2], [-1, 0]]
     # 1. one selector (samples)
     for nsel in nsel_list:
         got = ctx.call("getitem", lambda: sr[nsel])
@@ -222,8 +222,8 @@ def case_reader(ctx, kind, sym_gain, sort, cbin, tier, band="ap"):
     got = ctx.call("read_samples", lambda: sr.read_samples(0, 2, channels=None))
     _compare(ctx, "read_samples", got[0], CAL[0:2], {})
     # numpy slicing convention for every pair of bounds, the empty ones included (stop 0, stop before start)
-    for a in range(-1, ns + 1):
-        for bb in range(-1, ns + 2):
+    for a in [None] + list(range(-1, ns + 1)):
+        for bb in list(range(-1, ns + 2)) + [None]:
             got = ctx.call("read_samples", lambda: sr.read_samples(a, bb))
             _compare(ctx, "read_samples_bounds", got[0] if isinstance(got, tuple) else got, CAL[a:bb], {"first": a, "last": bb})
     got = ctx.call("read", lambda: sr.read(nsel=slice(0, 2), csel=[0, n], sync=False))
@@ -281,7 +281,7 @@ def case_read_sync(ctx, xa):
             e = out[s, b]
             v = e.to_int() if isinstance(e, SBV) else e
             ctx.oblige("digital_line_k_is_bit_k", core.eq(v, core.SInt(z3.BV2Int(z3.Extract(b, b, words[s][xa].t), is_signed=False))), detail={"s": s, "k": b})
-    def analog_oracle(res, first, last, name):
+    def analog_oracle(res, first, last, name, floor=True):
         m_ = last - first
         for j in range(xa):
             col = [core._as_real(words[s][j]) * k for s in range(first, last)]
@@ -289,7 +289,7 @@ def case_read_sync(ctx, xa):
             # 10th percentile, linear interpolation: position 0.1*(m-1)
             pos = Fraction(1, 10) * (m_ - 1)
             lo = int(pos)
-            p10 = srt[lo] + (srt[min(lo + 1, m_ - 1)] - srt[lo]) * (pos - lo)
+            p10 = (srt[lo] + (srt[min(lo + 1, m_ - 1)] - srt[lo]) * (pos - lo)) if floor else core._as_real(0)
             for s in range(m_):
                 hi = (col[s] - p10) >= core._as_real(Fraction(float(thr)))
                 ctx.oblige(name, core.eq(res[s, 16 + j], core.ite(hi, 1, 0)), detail={"s": first + s, "j": j, "got": res[s, 16 + j], "slice": [first, last]})
@@ -298,6 +298,10 @@ def case_read_sync(ctx, xa):
     out2 = ctx.call("read_sync_again", lambda: sr.read_sync(slice(1, ns), threshold=float(thr)))
     if ctx.oblige("second_call_shape", tuple(out2.shape) == (ns - 1, 16 + xa), detail={"shape": str(out2.shape)}):
         analog_oracle(out2, 1, ns, "later_call_uses_the_floor_of_its_own_stretch")
+    # floor removal switched off (floor_percentile=False): the raw voltage is compared with the threshold
+    out3 = ctx.call("read_sync_no_floor", lambda: sr.read_sync(slice(0, ns), threshold=float(thr), floor_percentile=False))
+    if ctx.oblige("no_floor_call_shape", tuple(out3.shape) == (ns, 16 + xa), detail={"shape": str(out3.shape)}):
+        analog_oracle(out3, 0, ns, "floor_removal_switched_off_thresholds_the_raw_voltage", floor=False)
 
 
 def cases(tier):
@@ -384,10 +388,12 @@ for i in range(-ns, ns): cmp(f'n{{i}}', sr[i], CAL[i])
 for j in range(-(n + 1), n + 1): cmp(f'c{{j}}', sr[:, j], CAL[:, j]); cmp(f'1c{{j}}', sr[1, j], CAL[1, j])
 for J in ([0], [n, 0], [1, 1, 2], [-1, 0], [], np.array([2, 0]), np.array(([True, False, True, False] + [False] * n)[:n + 1]), ([False, True] + [False] * n)[:n + 1]):
     cmp(f'cl{{J}}', sr[:, J], CAL[:, J]); cmp(f'1cl{{J}}', sr[1, J], CAL[1, J])
-for a in range(-1, ns + 1):
-    for b in range(-1, ns + 2):
-        r = sr.read_samples(a, b); cmp(f'read_samples({{a}},{{b}})', r[0] if isinstance(r, tuple) else r, CAL[a:b])
-for I in ([0], [2, 0], [1, 1], [-1], []): cmp(f'nl{{I}}', sr[I, :], CAL[I, :]); cmp(f'nl1{{I}}', sr[I, 1], CAL[I, 1])
+for a in [None] + list(range(-1, ns + 1)):
+    for b in list(range(-1, ns + 2)) + [None]:
+        try: r = sr.read_samples(a, b)
+        except Exception as e: bad.append((f'read_samples({{a}},{{b}})', repr(e))); continue
+        cmp(f'read_samples({{a}},{{b}})', r[0] if isinstance(r, tuple) else r, CAL[a:b])
+for I in ([0], [2, 0], [1, 1], [-1], [], [-2, -1], np.array([-3, -2, -1]), [0, 1, 2], [-1, 0]): cmp(f'nl{{I}}', sr[I, :], CAL[I, :]); cmp(f'nl1{{I}}', sr[I, 1], CAL[I, 1])
 cmp('rs', sr.read_samples(0, 2)[0], CAL[0:2]); cmp('sync', sr[:, n], raw[:, n])
 g = sr.geometry
 for i in range(n):
@@ -440,6 +446,10 @@ for first in (0, 1):
     exp = np.c_[np.array([[(int(x) & 0xffff) >> k & 1 for k in range(16)] for x in dg[first:]]), (v >= 1.2).astype(int)]
     print(out, exp, sep='\\n')
     if out.shape != exp.shape or not np.array_equal(out, exp): reproduced(f'read_sync(slice({{first}}, {{ns}})) differs from bits + thresholded analog (floor of that stretch)')
+out = sr.read_sync(slice(0, ns), threshold=1.2, floor_percentile=False)
+v = an.astype(np.float32) * np.float32(5.0 / 32768)
+exp = np.c_[np.array([[(int(x) & 0xffff) >> k & 1 for k in range(16)] for x in dg]), (v >= 1.2).astype(int)]
+if out.shape != exp.shape or not np.array_equal(out, exp): reproduced('read_sync(floor_percentile=False) differs from bits + thresholded raw voltage')
 not_reproduced()
 """
     return None
